@@ -13,7 +13,7 @@ RULE = ("Hypothesis-generated configurations over all 37 crops (calendar and the
         "meet a restrictive layer or the water-table bound is active; distinct = configuration hash.")
 ASSUMPTIONS = [
     "a run whose initial profile lies above saturation or below air-dry in some compartment (possible when depth points of one layer are extended into a layer with other hydraulic properties) is outside the domain of valid configurations: counted under the label start_outside_airdry_saturation, not evaluated",
-    "crop parameters (CCx, Zmin, Zmax, HI0, dHI0, Tbase, Tupp) are read from the model's per-season crop object after the run",
+    "crop parameters (CCx, Zmin, Zmax, HI0, dHI0, Tbase, Tupp) are the CONFIGURED ones (override in the generated configuration, else the catalogue value), not the model's copies",
     "a negative dHI0 in the catalogue (-9 = not applicable: SugarCane, AlfalfaGDD) is read as 'no increase allowed'",
     "tolerances: 1e-9 absolute on dimensionless quantities, 1e-9 relative on the cumulative degree-day sum, 1e-12 on root shrinkage",
 ]
@@ -28,6 +28,18 @@ EPS = 1e-9
 
 def strategy(tier):
     return gen.configs(PROFILE)
+
+
+class Configured:
+    """Envelope parameters as the USER configured them (override in the configuration, else the catalogue value);
+    the model's own per-season crop object is consulted only for the calendar type."""
+
+    def __init__(self, cfg, model_crop):
+        cat = gen.crop_params[cfg["crop"]["name"]]
+        ov = cfg["crop"].get("overrides", {})
+        for k in ("CCx", "Zmin", "Zmax", "HI0", "dHI0", "Tbase", "Tupp"):
+            setattr(self, k, float(ov.get(k, cat[k])))
+        self.CalendarType = int(model_crop.CalendarType)
 
 
 def restrictive(tr):
@@ -76,7 +88,7 @@ def evaluate(cfg):
         if k < 0 or k >= len(crops) or len(sel) == 0:
             res.fail("season_index", "in-season rows with season counter %d" % k)
             continue
-        c = crops[k]
+        c = Configured(cfg, crops[k])
         g = gr[sel]
         f = fl[sel]
         cc, ccns = g[:, G["canopy_cover"]], g[:, G["canopy_cover_ns"]]
